@@ -405,6 +405,9 @@ def pad(
     ):
         # TODO: Think about case when boundary is specified but boundary_width is None or (0,0).
         # TODO: No padding would occur in that situation. Should we warn the user?
+        if isinstance(data, dict):
+            # like the padding branches below, hand back the vector component itself
+            (data,) = data.values()
         return data
 
     # TODO: Refactor, if the max value is 0, complain.
